@@ -94,7 +94,8 @@ pub const ATOMS: [Atom; 34] = [
     Atom::AltL,
 ];
 
-pub const ALPHA13: [u8; 13] = [0x00, 0x01, 0x02, 0x0F, 0x10, 0x7F, 0x80, 0x81, 0x8F, 0xF0, 0xFE, 0xFF, 0x55];
+/// boundary alphabet (incl. the BCD boundaries 09/0A/99/9A/A0 that DAA distinguishes)
+pub const ALPHA13: [u8; 18] = [0x00, 0x01, 0x02, 0x0F, 0x10, 0x7F, 0x80, 0x81, 0x8F, 0xF0, 0xFE, 0xFF, 0x55, 0x09, 0x0A, 0x99, 0x9A, 0xA0];
 pub const ALPHA2: [u8; 2] = [0x00, 0xFF];
 pub const ALPHA4: [u8; 4] = [0x00, 0xFF, 0x01, 0x80];
 
